@@ -85,6 +85,11 @@ def _corpus_programs():
                                                                             ["obj", [F(1, "C", I(5)), F(2, "C", I(6))]]]]),
                                          F(3, "C", I(3)),
                                          F(4, "P", ["list", True, "abs", [["obj", [F(1, "S", I(1)), F(2, "C", I(2))]], ["null"], ["bad"]]], nn=True)]})
+    # lists resolved by lazy iterables that raise part-way (scalars, objects, union items)
+    ps.append({"op": "query", "fields": [F(0, "C", ["list", False, "int", [["int", 1], ["raise", 0], ["int", 2]]]),
+                                         F(1, "P", ["list", True, "obj", [["obj", [F(2, "C", I(2)), F(3, "C", ["err", 1], sh="i")]], ["obj", [F(2, "C", I(4)), F(3, "C", I(5))]],
+                                                                          ["raise", 1]]], nn=True),
+                                         F(4, "S", ["list", False, "abs", [["raise", 0], ["obj", [F(5, "C", I(5))]]]]), F(6, "C", I(6))]})
     # a list that cannot be completed inside an item of another one: the inner field's own error stays
     ps.append({"op": "mutation", "fields": [F(0, "P", ["list", False, "abs", [
         ["obj", [F(1, "S", ["list", True, "abs", [["bad"], ["obj", [F(2, "D", ["null"], sh="lI")]]]], nn=True),
@@ -171,6 +176,10 @@ def corpus():
     out = []
     for i, p in enumerate(_corpus_programs()):
         out.extend(_cases_for(p, 720, 20, i))
+    # witness of the open finding nested-list-row-failure-start-depends-on-runtime
+    out.append({"nested": {"op": "query", "fields": [F(0, "C", ["list2", "llr", [
+        ["row", [["obj", [F(1, "C", ["int", 1])]], ["bad"]]], ["row", [["obj", [F(1, "C", ["err", 0], sh="i")]]]]]])]},
+        "limit": 40, "seed": 7})
     return out
 
 
@@ -202,6 +211,114 @@ def eager_programs(quick, op="query"):
     return out
 
 
+# ------------------------------------------------------------------ nested lists (model-free)
+# The Coq tree language has no lists of lists. Programs with a [[U]] / [[U]!] / [[U!]!]! field are
+# therefore checked without the model: every configuration and every completion order must return
+# the same response (C08), nothing may be left pending, and for mutations no resolver of a later
+# top-level field may be invoked before every resolver started under the earlier one has returned
+# (C09).
+TRIVIAL_CASE = ("(CaseProg CBlockingExec (Prog true FNil) "
+                "[MkObs [] (OData (VObj []) []) [] 0 false [] []])")
+NESTED_CONFIGS = ("bexec", "brt", "aio", "pool", "prom")
+
+
+def nested_programs(rng, quick):
+    I = lambda z: ["int", z]  # noqa
+    out = []
+
+    def item(k, m, body, tag=None):
+        it = ["obj", [F(k, m, body, **({"sh": "i"} if body[0] != "int" else {}))]]
+        return it + [tag] if tag else it
+
+    for op in ("mutation", "query"):
+        for sh in ("llu", "llr", "llR"):
+            for fail_row in (0, 1, 2):
+                for m in ("C", "P", "S"):
+                    if quick and rng.random() < 0.7:
+                        continue
+                    # rows of items with a (deferred) sub-field; one row fails *late*: an item that
+                    # cannot be typed after an item whose sub-field is deferred; sibling rows are slow
+                    rows = [["row", [item(1, m, I(10 + r), "T2" if r % 2 else None), item(1, m, I(20 + r))]] for r in range(3)]
+                    rows[fail_row] = ["row", [item(1, m, I(7)), ["bad"]]]
+                    if rng.random() < 0.3:
+                        rows.insert(rng.randrange(len(rows) + 1), ["null"] if sh == "llu" else ["row", []])
+                    if rng.random() < 0.4:
+                        later = [r for r in range(len(rows)) if r > fail_row and rows[r][0] == "row" and rows[r][1]]
+                        if later:   # a failing sub-field in a row after the failing one
+                            rows[rng.choice(later)][1][0] = item(1, m, ["err", rng.randrange(6)])
+                    out.append({"op": op, "fields": [F(0, rng.choice(["C", "S", "P"]), ["list2", sh, rows], nn=(sh == "llR")),
+                                                     F(3, rng.choice(["C", "S"]), I(3)), F(4, "C", I(4))]})
+    return out
+
+
+def nested_cases(rng, quick):
+    return [{"nested": p, "limit": 40 if quick else 400, "seed": rng.randrange(1 << 30)} for p in nested_programs(rng, quick)]
+
+
+def run_nested(case):
+    prog = case["nested"]
+    by = {}
+    for cfg in NESTED_CONFIGS:
+        if cfg in ("bexec", "brt"):
+            by[cfg] = [sp.run_blocking(prog, cfg)]
+        else:
+            runs, _ex = sched.explore(lambda ch: sp.run_scheduled(prog, cfg, ch), case["limit"],
+                                      random.Random(case["seed"]), 10, stop=lambda r: bool(r.get("hang")))
+            by[cfg] = runs
+    return {"by_config": by}
+
+
+def _response(r):
+    return json.dumps([r.get("data"), sorted(map(json.dumps, r.get("errors", []))), r.get("fail"), r.get("fail_other")])
+
+
+def _late_row_errors_only(prog, by):
+    """exactly the open finding: the configurations differ only in field errors recorded under rows
+    *after* the first failing row of a nested list (rows the blocking configurations never start)"""
+    fails = {}   # field key -> index of the first failing row
+    for f in prog["fields"]:
+        if f["b"][0] == "list2":
+            for i, row in enumerate(f["b"][2]):
+                if row[0] == "row" and any(it[0] == "bad" for it in row[1]):
+                    fails[f["k"]] = i
+                    break
+    datas, errsets = set(), []
+    for runs in by.values():
+        for r in runs:
+            if _bad_run(r) or "fail" in r:
+                return False
+            datas.add(json.dumps(r.get("data")))
+            errsets.append({json.dumps(e) for e in r.get("errors", [])})
+    if len(datas) != 1:
+        return False
+    common_errs = set.intersection(*errsets)
+    for es in errsets:
+        for e in es - common_errs:
+            path = json.loads(e)[0]
+            if not (len(path) >= 2 and path[0] in fails and path[1] > fails[path[0]]):
+                return False
+    return True
+
+
+def nested_checks(case, obs, serial_violation=None):
+    out = []
+    prog, by = case["nested"], obs["by_config"]
+    for cfg, runs in by.items():
+        for r in runs:
+            if r.get("hang"):
+                out.append(("completes-once-all-resolvers-completed: implementation blocked (%s)" % cfg, None))
+            elif r.get("pending") or r.get("leftover"):
+                out.append(("completes-once-all-resolvers-completed: result or inner future left pending (%s)" % cfg, None))
+            elif serial_violation is not None and prog["op"] == "mutation" and serial_violation(prog, r.get("events", [])):
+                out.append(("later top-level field invoked before every resolver started under the earlier one returned (%s)" % cfg, None))
+            if out:
+                return out[:1]
+    if len({_response(r) for runs in by.values() for r in runs}) > 1:
+        key = "nested-list-row-failure-start-depends-on-runtime" if _late_row_errors_only(prog, by) else None
+        out.append(("same response under every configuration and completion order (nested list)", key))
+    return out
+
+
 def _comb_cases(rng, quick):
     out = [{"comb": sc} for sc in sched_comb.families(rng, quick)]
     for _ in range(100 if quick else 3000):
@@ -214,10 +331,10 @@ def generate(rng, tier):
     quick = tier == "quick"
     SHARD = 40 if quick else 10
     limit, samples = (720, 30) if quick else (5040, 200)
-    cases = _comb_cases(rng, quick)
+    cases = _comb_cases(rng, quick) + nested_cases(rng, quick)
     plan = []
     if quick:
-        plan += [dict(n=30, min_tasks=2, max_tasks=5, p_exn=0.0), dict(n=18, min_tasks=2, max_tasks=5, p_exn=0.12),
+        plan += [dict(n=24, min_tasks=2, max_tasks=5, p_exn=0.0), dict(n=14, min_tasks=2, max_tasks=5, p_exn=0.12),
                  dict(n=6, min_tasks=4, max_tasks=6, p_exn=0.05), dict(n=6, min_tasks=1, max_tasks=1, p_exn=0.1)]
     else:
         plan += [dict(n=260, min_tasks=2, max_tasks=5, p_exn=0.0), dict(n=150, min_tasks=2, max_tasks=5, p_exn=0.12),
@@ -247,6 +364,8 @@ def generate(rng, tier):
 def run_impl(case):
     if "comb" in case:
         return sched_comb.run_script(case["comb"])
+    if "nested" in case:
+        return run_nested(case)
     prog, cfg = case["prog"], case["config"]
     if cfg in ("bexec", "brt"):
         return {"runs": [sp.run_blocking(prog, cfg)], "exhaustive": True}
@@ -262,6 +381,8 @@ def run_impl(case):
 def to_coq(case, obs):
     if "comb" in case:
         return sched_comb.c_case(case["comb"], obs)
+    if "nested" in case:
+        return TRIVIAL_CASE      # checked by direct_checks (model-free)
     cfg = case["config"]
     acfg = "pool" if cfg in ("threads", "poole", "poolh", "prom") else cfg
     bad = sp.bad_paths(case["prog"])
@@ -270,12 +391,16 @@ def to_coq(case, obs):
 
 
 def show_expr(case, obs):
+    if "nested" in case:
+        return "0"
     if "comb" in case:
         return "model_C08 %s" % to_coq(case, obs)
     return "model_C08 %s" % to_coq(case, dict(obs, runs=obs["runs"][:3]))
 
 
 def nontrivial(case, obs):
+    if "nested" in case:
+        return True
     if "comb" in case:
         return len(case["comb"]["sigma"]) >= 2
     return case["config"] in ("aio", "aiot", "pool", "poole", "poolh", "prom", "threads") and (
@@ -283,6 +408,8 @@ def nontrivial(case, obs):
 
 
 def canonical(case):
+    if "nested" in case:
+        return json.dumps(case["nested"], sort_keys=True)
     if "comb" in case:
         return json.dumps(case["comb"])
     return (json.dumps(case["prog"], sort_keys=True), case["config"], tuple(case.get("chunk", ())))
@@ -294,6 +421,8 @@ def _bad_run(r):
 
 
 def classify(case, obs):
+    if "nested" in case:
+        return "nested list (model-free)", None
     if "comb" in case:
         return "future combinators complete the outer future exactly once with the specified result", None
     runs = obs["runs"]
@@ -308,6 +437,8 @@ def classify(case, obs):
 
 def direct_checks(case, obs):
     out = []
+    if "nested" in case:
+        return nested_checks(case, obs)
     if "comb" in case:
         return [("future combinator blocked", None)] if obs.get("hang") else []
     for r in obs["runs"]:
@@ -326,7 +457,7 @@ def direct_checks(case, obs):
 
 
 def shrink(case, is_bad):
-    if "comb" in case:
+    if "comb" in case or "nested" in case:
         return case
     cur = case
     changed = True
@@ -345,10 +476,12 @@ def shrink(case, is_bad):
 
 def extra_evidence(cases, obss):
     ncomb = sum(1 for c in cases if "comb" in c)
-    pairs = [(c, o) for c, o in zip(cases, obss) if "comb" not in c]
+    nnested = sum(1 for c in cases if "nested" in c)
+    pairs = [(c, o) for c, o in zip(cases, obss) if "comb" not in c and "nested" not in c]
     cases, obss = [c for c, _o in pairs], [o for _c, o in pairs]
     ev = _extra_evidence(cases, obss)
     ev["distribution"]["combinator_scripts"] = ncomb
+    ev["distribution"]["nested_list_programs_model_free"] = nnested
     return ev
 
 
